@@ -130,6 +130,10 @@ class Evaluator:
         self.inline = inline
         self.depth = depth
         self.steps = 0
+        # when the function under evaluation IS a validation (whether it
+        # raises is the question), an undetermined test is not assumed
+        # to pass
+        self.strict = False
 
     # ---- function level
     def call_function(self, fn, argvals):
@@ -263,6 +267,8 @@ class Evaluator:
         raise Undecided(f'statement kind {type(s).__name__}')
 
     def only_raises(self, stmts):
+        if self.strict:
+            return False
         return bool(stmts) and isinstance(stmts[-1], ast.Raise) and all(
             isinstance(x, (ast.Assign, ast.Expr)) for x in stmts[:-1])
 
@@ -529,8 +535,11 @@ class Evaluator:
 
     def x_Call(self, e, env):
         name = au.call_name(e)
-        args = [self.expr(a, env) for a in e.args
-                if not isinstance(a, ast.Starred)]
+        if any(isinstance(a, ast.Starred) for a in e.args) or any(
+                k.arg is None for k in e.keywords):
+            # arguments unpacked from a container: not followed
+            return ('unknown', f'call {name} with unpacked arguments')
+        args = [self.expr(a, env) for a in e.args]
         kwargs = {k.arg: self.expr(k.value, env)
                   for k in e.keywords if k.arg}
         # local function defined in the body
